@@ -7,9 +7,50 @@
    (gen/GenLocks.v) and the hypothesis `lock_ok program = true` is re-established by vm_compute (gen/GenLocksCheck.v).
    Trusted, NOT proved: the event extraction (translator), Go's memory model (DRF-SC: a race-free program behaves
    sequentially consistently; mutex Unlock happens-before the next Lock) and scheduler (fairness), the data values. *)
-From Coq Require Import List String.
-From V Require Import Conc.LockLang Conc.LockCheck Conc.LockInv Conc.LockSound Conc.LockExamples.
+From Coq Require Import List String Permutation.
+From V Require Import Conc.LockLang Conc.LockCheck Conc.LockInv Conc.LockSound Conc.LockAtomic Conc.LockExamples.
 Import ListNotations.
+
+(* THE THEOREM (DESIGN 4/C17): the checker is sound for all schedules.
+   race_free: see C17_race_free.  no_thread_blocked_forever: see below.  serializable = conflict-serializable: whenever an
+   access of one top-level call precedes a conflicting access of a call of another goroutine, the LOCK POINT (last
+   acquisition) of the first call precedes the lock point of the second; lock points are trace positions, so ordering the
+   calls by lock point is a total order consistent with every conflict (acyclic precedence graph, explicit serial order). *)
+Theorem C17_lock_ok_sound : forall prog w c0,
+  lock_ok prog = true -> wf_world w -> initial prog w c0 ->
+  race_free prog w c0 /\ no_thread_blocked_forever prog w c0 /\ serializable prog w c0.
+Proof. exact lock_ok_sound. Qed.
+Print Assumptions C17_lock_ok_sound.
+
+(* the same with known non-atomic methods excluded (known finding: PubkeyCache.AddValidator is check-then-act):
+   schedules whose top-level calls avoid the excluded methods are conflict-serializable *)
+Theorem C17_serializable_partial : forall prog w c0 excl,
+  lock_ok_excl excl prog = true -> wf_world w -> initial prog w c0 -> avoids prog w excl c0 ->
+  conflict_serializable prog w c0.
+Proof. exact lock_ok_sound_serializable. Qed.
+Print Assumptions C17_serializable_partial.
+
+(* two-phase locking along every execution: after a goroutine released a mutex it acquires none before its next call *)
+Theorem C17_two_phase : forall prog w excl, atomic_ok excl prog = true -> wf_world w ->
+  forall c0 tr c, initial prog w c0 -> avoids prog w excl c0 -> exec prog w c0 tr c ->
+  forall k a t o1 md1 o2 md2, k < a ->
+    nth_error tr k = Some (t, LRel o1 md1) -> nth_error tr a = Some (t, LAcq o2 md2) ->
+    exists x o m, k < x /\ x < a /\ nth_error tr x = Some (t, LStart o m).
+Proof. exact two_phase. Qed.
+Print Assumptions C17_two_phase.
+
+(* FULL statement of the serializability clause of the property text, NOT proved here (gap): "every call returns what it
+   would return in some sequential order".  Missing steps: (1) the classical theorem that an execution with an acyclic
+   precedence graph can be permuted, by swapping adjacent non-conflicting steps of different goroutines, into a serial
+   execution with the same per-goroutine events and the same order of conflicting accesses; (2) data values: the model has
+   no values, so "returns the same" is the statement that each call reads from the same writes, which (1) gives. *)
+Definition C17_sequential_equivalence_full : Prop := forall prog w c0,
+  lock_ok prog = true -> wf_world w -> initial prog w c0 ->
+  forall tr c, exec prog w c0 tr c -> all_done c ->
+  exists tr', exec prog w c0 tr' c /\ Permutation.Permutation tr tr' /\
+    (* serial: the events of one top-level call are contiguous *)
+    (forall a b t, a < b -> (exists la, nth_error tr' a = Some (t, la)) -> (exists lb, nth_error tr' b = Some (t, lb)) ->
+       same_call tr' t a b -> forall x t' lx, a < x -> x < b -> nth_error tr' x = Some (t', lx) -> t' = t).
 
 (* no data race, for every schedule: no reachable configuration in which two goroutines are about to perform conflicting
    accesses, and any two conflicting accesses of a trace are separated by Release(first goroutine) ... Acquire(second) *)
@@ -35,6 +76,12 @@ Print Assumptions C17_writes_hold_the_write_lock.
 Example C17_nonvacuous : lock_ok good = true /\ wf_world w2 /\ initial good w2 c_init /\
   race_free good w2 c_init /\ no_thread_blocked_forever good w2 c_init.
 Proof. split; [exact good_ok|]. split; [exact w2_wf|]. split; [exact c_init_initial|]. exact good_program_is_covered. Qed.
+
+(* serializability is not vacuous: in a concrete execution of Put and Len on one object the lock points exist (2 and 8)
+   and the theorem orders the conflicting pair (write of cnt at position 5, read of cnt at position 9) *)
+Example C17_serializable_nonvacuous :
+  (exists c, exec good w2 c_pl tr_pl c) /\ lock_point tr_pl 0 5 2 /\ lock_point tr_pl 1 9 8.
+Proof. split; [exact tr_pl_is_an_execution | exact tr_pl_lock_points]. Qed.
 
 (* the checker rejects one hand-written program per rule *)
 Example C17_rejects :
